@@ -13,8 +13,29 @@ pub struct Map2<BS, K, V> { p: PhantomData<(BS, K, V)> }
 
 pub uninterp spec fn map2_decode<K, V>(c: Cid) -> Map<K, V>;
 
+#[derive(Clone, Copy)]
+pub struct Config { pub bit_width: u32, pub min_data_depth: u32, pub max_array_width: usize }
+pub const DEFAULT_HAMT_CONFIG: Config = Config { bit_width: 5, min_data_depth: 0, max_array_width: 1 };
+pub const HAMT_BIT_WIDTH: u32 = 5;
+pub trait MapKey {}
+impl MapKey for Cid {}
+impl MapKey for Address {}
+impl MapKey for u64 {}
+impl MapKey for i64 {}
+
 impl<BS: Blockstore, K, V> Map2<BS, K, V> {
     pub uninterp spec fn view(&self) -> Map<K, V>;
+
+    #[verifier::external_body]
+    pub fn empty(store: BS, config: Config, name: &'static str) -> (r: Self)
+        ensures r.view() == Map::<K, V>::empty(),
+    { unimplemented!() }
+
+    /// content addressing: loading a root yields the map that was flushed to it
+    #[verifier::external_body]
+    pub fn load(store: BS, root: &Cid, config: Config, name: &'static str) -> (r: Result<Self, ActorError>)
+        ensures r.is_ok() ==> r->Ok_0.view() == map2_decode::<K, V>(*root),
+    { unimplemented!() }
 
     #[verifier::external_body]
     pub fn get(&self, key: &K) -> (r: Result<Option<&V>, ActorError>)
@@ -64,7 +85,7 @@ impl<BS: Blockstore, K, V> Map2<BS, K, V> {
 
     #[verifier::external_body]
     pub fn is_empty(&self) -> (r: bool)
-        ensures r == (self.view().dom() =~= Set::<K>::empty()),
+        ensures r == (self.view().dom() =~= vstd::set::Set::<K>::empty()),
     { unimplemented!() }
 }
 
